@@ -909,13 +909,25 @@ def ev(n, env, funcs=None):
     if isinstance(n, ast.IfExp):
         return ev(n.body, env, funcs) if ev(n.test, env, funcs) else ev(n.orelse, env, funcs)
     if isinstance(n, ast.Dict) and all(k is not None for k in n.keys):
-        return {ev(k, env, funcs): ev(v, env, funcs) for k, v in zip(n.keys, n.values)}
-    if isinstance(n, ast.Set):
-        return {ev(e, env, funcs) for e in n.elts}
-    if isinstance(n, ast.Tuple):
-        return tuple(ev(e, env, funcs) for e in n.elts)
-    if isinstance(n, ast.List):
-        return [ev(e, env, funcs) for e in n.elts]
+        out_ = {}
+        for k, v in zip(n.keys, n.values):
+            if k is None:                     # {**other}
+                out_.update(ev(v, env, funcs))
+            else:
+                out_[ev(k, env, funcs)] = ev(v, env, funcs)
+        return out_
+    if isinstance(n, (ast.Set, ast.Tuple, ast.List)):
+        items = []
+        for e in n.elts:
+            if isinstance(e, ast.Starred):    # [first, *rest]
+                sv = ev(e.value, env, funcs)
+                if isinstance(sv, dict) or not (isinstance(sv, (list, tuple, set, frozenset, range, str)) or hasattr(sv, '__iter__')):
+                    if not isinstance(sv, dict):
+                        raise Unsupported('starred element %s' % _unparse(e))
+                items.extend(list(sv))
+            else:
+                items.append(ev(e, env, funcs))
+        return set(items) if isinstance(n, ast.Set) else (tuple(items) if isinstance(n, ast.Tuple) else items)
     raise Unsupported(_unparse(n) if isinstance(n, ast.AST) else str(n))
 
 
